@@ -130,6 +130,10 @@ def generate(rng, tier):
         table["titles"] = {rng.choice(fields): rng.choice(["Two\nLines", "T", "A longer title"])}
     if rng.random() < 0.2:
         table["limits"] = [rng.randint(0, 3), rng.randint(0, 3)]
+    if rng.random() < 0.2:
+        plain = [f for f in fields if f != "status"]
+        if plain:
+            table["wtypes"] = {rng.choice(plain): [rng.randint(0, 4), rng.randint(4, 9)]}
     if rng.random() < 0.25 and recs and not odd:
         table["nt"] = True
     ops = []
@@ -208,6 +212,7 @@ class World:
         self.log = log
         self.conf = color.ColorsConfig({"TABLE": {"BORDER": "CYAN"}, "RECORD.NUMBER": "YELLOW:bold"})
         self.enums = {0: rw.ro.build_enum(trace["enums"][0])}
+        self.wtypes = {}
         self.spec = trace["table"]
         self.table = None
         self.records = None
@@ -233,6 +238,10 @@ def build_table(w, fmt=None, fmt_obj=None, with_limits=True):
             kw["fields"] = list(spec["fields"])
         if spec.get("types"):
             kw["fields_types"] = {n: w.enums[i] for n, i in spec["types"].items()}
+        if spec.get("wtypes"):
+            ft = kw.setdefault("fields_types", {})
+            for n, (lo, hi) in spec["wtypes"].items():
+                ft.setdefault(n, w.wtypes.setdefault(n, rw.ro.FieldType(min_width=lo, max_width=hi)))
         if spec.get("titles"):
             kw["fields_titles"] = dict(spec["titles"])
         kw["fmt"] = fmt
